@@ -27,6 +27,16 @@ INFIX = ['gp', 'op', 'ip', 'rp', 'sw', 'proj', 'add', 'sub', 'div']
 def run(ctx):
     run_ref_mc(ctx)
     rng, q = ctx.rng, ctx.quick
+    # IndexModel: the transcribed __setitem__ meets the assignment contract for every target / index / value taken from a
+    # multivector; the pinned-code rule (ndarray branch also for multivector values, finding F14) must be refuted
+    r = ctx.mc('mc/MC_Index.tla', 'mc/MC_Index_fixed.cfg', 'IndexModel: __setitem__ through a multivector touches exactly the addressed entries, coefficient by coefficient '
+               '(<= 3 keys x <= 4 entries, all position sequences, both containers, numbers / arrays)')
+    if not r['ok']:
+        ctx.report(f"IndexModel violates {r['violated']}", {'kind': 'spec', 'violated': ','.join(r['violated'])}, {'tail': r['out'][-2000:]})
+    rc = ctx.mc('mc/MC_Index.tla', 'mc/MC_Index_old.cfg', 'control: numpy broadcasting of a multivector value into an ndarray container (pinned code) must be refuted')
+    if not rc['violated']:
+        from tlc import MachineryError
+        raise MachineryError('control run MC_Index_old.cfg did not find the known counterexample')
     us = [ucfg(sig=[1, 1]), ucfg(sig=[0, 1]), ucfg(sig=[1, 1, 1]), ucfg(sig=[1, -1, 0]), named_ucfg('2DPGA'), ucfg(3, 0, 1)]
     if not q:
         us += [ucfg(sig=[1, -1]), ucfg(sig=[1, 1, -1], start=0), named_ucfg('3DPGA'), ucfg(sig=[1, 1, 1, 1])]
